@@ -319,6 +319,9 @@ def check(ctx):
     replay_sim(ctx, "simulate-nf2", consts(3, 2, 30), 3000 if thorough else 500, 40)
     replay_sim(ctx, "simulate-nf1", consts(3, 1, 30), 3000 if thorough else 300, 40)
     check_threads(ctx, thorough)
+    if thorough:
+        from .. import apalache
+        apalache.discharge(ctx, "WrapCore")
 
 
 # ---------------------------------------------------------------------------
